@@ -16,7 +16,7 @@ def _lit(src, node):
     if float(q) != float(node.value): raise Refuse(f'literal {text!r} read inexactly')
     return q
 
-CMP = {ast.Gt: '>', ast.Lt: '<', ast.GtE: '≥', ast.LtE: '≤'}
+CMP = {ast.Gt: '>', ast.Lt: '<', ast.GtE: '≥', ast.LtE: '≤', ast.NotEq: '≠', ast.Eq: '='}
 
 def _expr(src, e, env):
     key = ast.unparse(e)
@@ -136,6 +136,19 @@ def generate(repo):
     if ast.unparse(ls.iter) != 'range(1, x.size, 2)': raise Refuse('bin/simps: loop range')
     A(f'/-- `bin`, chained Simpson rule: term `{ast.unparse(ts)}` (entries k-1, k, k+1; k odd) -/')
     A(f"def simpsTerm (x0 x1 x2 f0 f1 f2 : Rat) : Rat := {_expr(src, ts, {'f[k - 1]': 'f0', 'f[k]': 'f1', 'f[k + 1]': 'f2', 'x[k - 1]': 'x0', 'x[k]': 'x1', 'x[k + 1]': 'x2'})}")
+    # ---- preserve_power: guarded rescaling of the bins
+    pp = [st for st in b.body if isinstance(st, ast.If) and ast.unparse(st.test) == 'preserve_power']
+    if len(pp) != 1: raise Refuse('bin: `if preserve_power:` block not found')
+    blk = pp[0].body
+    if not (len(blk) == 2 and isinstance(blk[0], ast.Assign) and ast.unparse(blk[0]) == 'total = np.sum(bins)' and isinstance(blk[1], ast.If)
+            and len(blk[1].body) == 1 and not blk[1].orelse and isinstance(blk[1].body[0], ast.AugAssign) and isinstance(blk[1].body[0].op, ast.Mult)
+            and ast.unparse(blk[1].body[0].target) == 'bins'):
+        raise Refuse('bin: preserve_power is not `total = np.sum(bins); if <guard>: bins *= <factor>` (unguarded division by the raw sum?)')
+    integ_call = 'self.integrate(np.min(wave), np.max(wave), method=interp_method)'
+    A(f'/-- `bin`, preserve_power: the bins are rescaled only when `{ast.unparse(blk[1].test)}` (total = np.sum(bins)) -/')
+    A(f"def binRescaleGuard (total : Rat) : Bool := {_expr(src, blk[1].test, {'total': 'total'})}")
+    A(f'/-- … by the factor `{ast.unparse(blk[1].body[0].value)}` (integral = `{integ_call}`) -/')
+    A(f"def binRescaleFactor (integral total : Rat) : Rat := {_expr(src, blk[1].body[0].value, {integ_call: 'integral', 'total': 'total'})}")
     return '\n'.join(L) + '\n', {}
 
 MODULES = [{'name': 'SpectrumOps', 'src': SRC, 'generator': generate, 'props': ['C15']}]
